@@ -61,9 +61,10 @@ Theorem generated_set_deadline s d :
     t_ds x = deadlines (set_deadline s d) /\ t_tod x = timed_out (set_deadline s d) /\ t_armed x = armed (set_deadline s d).
 Proof.
   unfold set_deadline, tctx_of. destruct (deadlines s) as [|a l] eqn:Ed.
-  - cbn. eexists. split; [reflexivity|]. cbn. auto.
-  - cbn -[minl]. destruct (minl (a :: l)) as [m|] eqn:Em; [|discriminate].
-    destruct (d <? m); cbn -[minl]; eexists; (split; [reflexivity|]); cbn -[minl]; auto.
+  - cbn. destruct (timed_out s); cbn; eexists; (split; [reflexivity|]); cbn; auto.
+  - cbn -[minl opt_in removelast]. destruct (minl (a :: l)) as [m|] eqn:Em; [|discriminate].
+    change (a :: l ++ [d]) with ((a :: l) ++ [d]). rewrite removelast_last.
+    destruct (d <? m); destruct (opt_in (timed_out s) (a :: l)); cbn -[minl opt_in]; eexists; (split; [reflexivity|]); cbn -[minl]; auto.
 Qed.
 
 Theorem generated_unset_deadline s :
